@@ -20,13 +20,34 @@ use std::time::Duration;
 use tokio::runtime::{Builder, RngSeed, Runtime};
 use tokio::task::JoinHandle;
 
-pub fn runtime(seed: u64) -> Runtime {
-    Builder::new_current_thread()
+/// Paused-clock, seeded, single-threaded runtime with a top-level virtual-time guard: if the whole
+/// case is still pending when the runtime is idle for a virtual year (i.e. some awaited task can
+/// never finish and no timer is armed), `block_on` panics with a "VH-STALL" message which the case
+/// runner reports as a violation instead of parking the OS thread forever.
+pub struct Rt(Runtime);
+
+impl Rt {
+    /// Wrap any runtime (for real-time multi-thread lanes the guard is simply never reached).
+    pub fn wrap(rt: Runtime) -> Rt {
+        Rt(rt)
+    }
+    pub fn block_on<F: Future>(&self, f: F) -> F::Output {
+        self.0.block_on(async move {
+            match tokio::time::timeout(Duration::from_secs(3600 * 24 * 365), f).await {
+                Ok(v) => v,
+                Err(_) => panic!("VH-STALL: the case never winds down (a driver, client or server task can never complete and no timer is armed)"),
+            }
+        })
+    }
+}
+
+pub fn runtime(seed: u64) -> Rt {
+    Rt(Builder::new_current_thread()
         .enable_time()
         .start_paused(true)
         .rng_seed(RngSeed::from_bytes(&seed.to_le_bytes()))
         .build()
-        .expect("runtime")
+        .expect("runtime"))
 }
 
 /// Future wrapper turning a panic during poll into Err(PanicInfo).
